@@ -620,6 +620,13 @@ def _conditions_at_dispatch(chk, repo):
             chk.ob("STALE-1", "%s evaluates a handler's condition in that handler's own iteration of the dispatch loop" % nm, inside, f.where(x),
                    detail="a condition evaluated before the loop is stale for every handler that runs after another one", construct=f.ident,
                    text="condition evaluated outside the dispatch loop in " + nm)
+            # ... and on the arguments the handler is then called with (posted merged with registered), in both dispatch paths alike
+            starred = {src(k.value) for c in calls for k in c.keywords if k.arg is None}
+            a0 = src(x.args[0]) if len(x.args) == 1 else None
+            chk.ob("STALE-1", "%s evaluates the condition on the very arguments it hands to the handler" % nm, a0 is not None and a0 in starred,
+                   f.where(x), detail="evaluated on `%s`, handler called with **%s: a condition on a registered argument reads nothing, one on a "
+                   "posted argument may read another value than the handler gets" % (a0, sorted(starred)), construct=f.ident,
+                   text="condition arguments differ from the handler's in " + nm)
     chk.ob("STALE-1", "dispatch-time condition evaluations examined", n >= 2, EV + ":1", detail=str(n), nontrivial=False)
 
 
@@ -948,6 +955,7 @@ def battery():
     from sa.battery import M
     return [
         M("multiball lock per-turn reset not announced (F26 reverted)", "mpf/devices/multiball_lock.py", "        self.notify_virtual_change(\"locked_balls\", old_locked_balls, self.locked_balls)\n", "", "NOTIFY-1"),
+        M("condition evaluated on the posted arguments only", "mpf/core/events.py", "            if handler.condition is not None and not handler.condition.evaluate(merged_kwargs):\n                continue\n\n            # log if debug is enabled and this event is not the timer tick", "            if handler.condition is not None and not handler.condition.evaluate(kwargs):\n                continue\n\n            # log if debug is enabled and this event is not the timer tick", "STALE-1"),
         M("reset writes the counter value behind the monitor", "mpf/devices/logic_blocks.py", "        self.completed = False\n        self.value = self.get_start_value()", "        self.completed = False\n        self._state.value = self.get_start_value()", "NOTIFY-1"),
         M("event player evaluates templates into the stored params", "mpf/config_players/event_player.py", "                params = deepcopy(params)\n", "", "STALE-1"),
         M("event player evaluates into an alias of the stored params", "mpf/config_players/event_player.py", "        for key, param in params.items():\n            if isinstance(param, dict):\n                params = deepcopy(params)\n                # TODO: move this to parsing time\n                params[key] = self._evaluate_event_param(param, kwargs)\n        self.machine.events.post(event, priority=priority, **params)", "        event_params = params\n        for key, param in params.items():\n            if isinstance(param, dict):\n                event_params[key] = self._evaluate_event_param(param, kwargs)\n        self.machine.events.post(event, priority=priority, **event_params)", "STALE-1"),
